@@ -162,19 +162,43 @@ def c02Check (j : Json) : Json :=
   Json.mkObj [("model", model), ("in_domain", dom), ("spec_ok", !dom || ok), ("known", Json.arr known),
     ("why", why)]
 
-def partsJ (d : Balance.Sums) : Json :=
-  Json.arr ((sortKV d).toArray.map fun (k, v) => Json.arr #[hx k, hx (Dec.toString v)])
-
 def diagJ (tx : Transaction) : Option Json :=
   match Balance.check tx with
   | none => some (Json.mkObj [("code", "panic")])
   | some r =>
     if r.balanced then none else
-    match (Balance.balanceDiagnostic r r.differences) with
+    match Balance.balanceDiagnostic r with
     | (.multipleInferred, msg) => some (Json.mkObj [("code", "MULTIPLE_INFERRED"), ("line", tx.range.start.line),
-        ("sev", (0 : Nat)), ("parts", Json.arr #[]), ("msg", hx msg)])
-    | (.unbalanced, _) => some (Json.mkObj [("code", "UNBALANCED"), ("line", tx.range.start.line),
-        ("sev", (0 : Nat)), ("parts", partsJ r.differences)])
+        ("sev", (0 : Nat)), ("msg", hx msg)])
+    | (.unbalanced, msg) => some (Json.mkObj [("code", "UNBALANCED"), ("line", tx.range.start.line),
+        ("sev", (0 : Nat)), ("msg", hx msg)])
+
+/-- split at every occurrence of `sep` (non-empty); structural on fuel. -/
+def splitSeqF (sep : Bytes) : Nat → Bytes → Bytes → List Bytes → List Bytes
+  | 0, cur, _, acc => (cur.reverse :: acc).reverse
+  | fuel + 1, cur, rest, acc =>
+    match rest with
+    | [] => (cur.reverse :: acc).reverse
+    | c :: r =>
+      if rest.take sep.length == sep then splitSeqF sep fuel [] (rest.drop sep.length) (cur.reverse :: acc)
+      else splitSeqF sep fuel (c :: cur) r acc
+
+def splitSeq (sep s : Bytes) : List Bytes := splitSeqF sep (s.length + 1) [] s []
+
+/-- "transaction does not balance: A off by 1; B off by 2" → [(A, 1), (B, 2)], numbers read by
+    the decimal model. -/
+def parseMessage (msg : Bytes) : Option (List (Bytes × Rat)) :=
+  let pre := bs "transaction does not balance: "
+  if msg.take pre.length != pre then none else
+  let segs := splitSeq (bs "; ") (msg.drop pre.length)
+  let parts := segs.map fun seg =>
+    match (splitSeq (bs " off by ") seg).reverse with
+    | num :: revCom =>
+      let com := (revCom.reverse.intersperse (bs " off by ")).flatten
+      (com, (Dec.ofString num).map Dec.toRat)
+    | [] => ([], none)
+  if parts.isEmpty || parts.any (fun p => p.2.isNone) then none
+  else some (parts.map fun p => (p.1, p.2.getD 0))
 
 /-- the verdict a published diagnostic states, numbers parsed back from the message. -/
 def diagVerdict (d : Option Json) : Option Verdict :=
@@ -183,12 +207,7 @@ def diagVerdict (d : Option Json) : Option Verdict :=
   | some d =>
     match jstr d "code" with
     | "MULTIPLE_INFERRED" => some .multiple
-    | "UNBALANCED" =>
-      let parts := (jarr d "parts").toList.map fun e => match e with
-        | .arr a => (unhx a[0]!, (Dec.ofString (unhx a[1]!)).map Dec.toRat)
-        | _ => ([], none)
-      if parts.isEmpty || parts.any (fun p => p.2.isNone) then none
-      else some (.unbalanced (parts.map fun p => (p.1, p.2.getD 0)))
+    | "UNBALANCED" => (parseMessage (jhex d "msg")).map .unbalanced
     | _ => none
 
 def c02Diag (j : Json) : Json := Id.run do
